@@ -129,6 +129,8 @@ std::vector<tlx::string_view>& split_view(std::vector<tlx::string_view>* into,
 
             into->emplace_back(last, it);
             last = it + sep.size();
+            // continue behind the separator: matches must not overlap
+            it = last - 1;
         }
     }
 
